@@ -4,6 +4,7 @@ import (
 	"fmt"
 	"go/token"
 	"go/types"
+	"strings"
 
 	"golang.org/x/tools/go/ssa"
 )
@@ -555,4 +556,69 @@ func edgeSet(es []Edge) func(Edge) bool {
 		m[e] = true
 	}
 	return func(e Edge) bool { return m[e] }
+}
+
+// errFailsOnly: the error result of call c cannot lead to a success exit of its function: it is returned as is, or
+// every edge on which it is non-nil reaches failure exits only. ok=false with a witness otherwise; tested=false when
+// the error is neither returned nor tested at all.
+func errFailsOnly(P *Prog, fn *ssa.Function, c ssa.CallInstruction) (ok bool, tested bool, wit []string) {
+	e := errResultOf(c)
+	if e == nil {
+		return true, true, nil
+	}
+	direct := false
+	eachInstr(fn, func(in ssa.Instruction) {
+		if ret, isR := in.(*ssa.Return); isR {
+			for _, op := range retOperands(ret) {
+				if op == e {
+					direct = true
+				}
+			}
+		}
+	})
+	edges := errEdges(c)
+	if len(edges) == 0 {
+		return direct, direct, nil
+	}
+	for _, ed := range edges {
+		if w := (PathQuery{Fn: fn, StartBlock: ed.From.Succs[ed.Succ], Target: isSuccessExit}).Search(); w != nil {
+			return false, true, P.witness(w)
+		}
+	}
+	return true, true, nil
+}
+
+// checkErrorsFailTheMessage: in each of fns, a non-nil error of a call into Haqq code or into a keeper (static callee in a
+// Haqq package, or an interface/keeper method) never leads to a success exit.
+func checkErrorsFailTheMessage(r *Run, rule string, fns []*ssa.Function, why string) int {
+	P := r.P
+	n := 0
+	for _, fn := range fns {
+		idx := map[string]int{}
+		eachCall(fn, func(ci CallInfo) {
+			if errResultOf(ci.Instr) == nil {
+				return
+			}
+			stateful := false
+			if ci.Static != nil && isHaqqPath(fnPkgPath(ci.Static)) {
+				stateful = true
+			}
+			if strings.HasSuffix(ci.Recv, "Keeper") || strings.HasSuffix(ci.Recv, "keeper") || strings.Contains(ci.PkgPath, "/keeper") {
+				stateful = true
+			}
+			if !stateful {
+				return
+			}
+			n++
+			idx[ci.Name]++
+			ok, tested, wit := errFailsOnly(P, fn, ci.Instr)
+			inst := fmt.Sprintf("%s#err-of-%s-%d", fnID(fn), ci.Name, idx[ci.Name])
+			bad := "after " + ci.String() + " failed the function can still return success (the error is only logged, matched against a sentinel or ignored): " + why
+			if !tested {
+				bad = "the error of " + ci.String() + " is neither returned nor tested: " + why
+			}
+			r.Check(ok, rule, inst, P.Pos(instrPos(ci.Instr)), "a non-nil error reaches only failure exits", bad, wit...)
+		})
+	}
+	return n
 }
